@@ -70,6 +70,17 @@ Proof. exact slp_read_skip_frag. Qed.
 Theorem C12_event_call_from_source : forall s, parse_event s = parse_event_src s.
 Proof. exact parse_event_from_source. Qed.
 
+From Peppi Require Import Gen.ReadPrologue Proofs.ReadPrologueLayout.
+(* ---- the first two calls of the incremental API, parse_header and parse_start (= parse_payloads + parse_game_start), regenerated
+   from src/io/slippi/de.rs (Gen/ReadPrologue.v): signature, width of the declared length, the test on the table size, the
+   step_by loop and the reads of one entry, the required sizes, the bytes_read arithmetic; full equalities, error classes included *)
+Theorem C12_header_from_source : forall bs, parse_header bs = parse_header_src bs.
+Proof. exact parse_header_from_source. Qed.
+Theorem C12_payloads_from_source : forall bs, parse_payloads bs = parse_payloads_src bs.
+Proof. exact parse_payloads_from_source. Qed.
+Theorem C12_start_from_source : forall bs, parse_start bs = parse_start_src bs.
+Proof. exact parse_start_from_source. Qed.
+
 Print Assumptions C12_event_appends_only.
 Print Assumptions C12_oneshot_skip_any_fragmentation.
 Print Assumptions C12_prefix_of_later_states.
@@ -82,3 +93,6 @@ Print Assumptions C12_event_any_fragmentation.
 Print Assumptions C12_metadata_any_fragmentation.
 Print Assumptions C12_oneshot_any_fragmentation.
 Print Assumptions C12_event_call_from_source.
+Print Assumptions C12_header_from_source.
+Print Assumptions C12_payloads_from_source.
+Print Assumptions C12_start_from_source.
